@@ -7,6 +7,9 @@
 #   at <dump> <hex ptr>    pointer parse, look-up on the tree and on the binary form
 #   dec <hex binn>         binary -> tree for buffers that use integer widths the library itself never writes
 #   ptr <hex ptr>          pointer parse only
+#   mx <dump> <hex ptr> <probe dump|-> <hex text|->   producer x consumer matrix, path level: every tree / binary the
+#                          public header can produce from the value x every look-up / compare / copy-path entry point
+#   mxc <dump> <hex text|->  producer x consumer matrix, value level: dump / print / compare / convert / clone / iterate
 import os, json, struct
 import vlib
 
@@ -466,7 +469,7 @@ def mutate_paths(rng, doc, paths):
         else:
             out.add(pre + b"/" + rng.choice(toks_pool))
     walk(doc, b"")
-    return [p for p in out if 0 not in p]
+    return sorted(p for p in out if 0 not in p)      # sorted: the order of a set of bytes differs from process to process
 
 
 def well_escaped(p):
@@ -559,6 +562,327 @@ def from_pyjson(x):
 
 def parse_json_text(t):
     return from_pyjson(json.loads(t, object_pairs_hook=lambda ps: ("o", [(k.encode("utf-8", "surrogatepass"), from_pyjson(v)) for k, v in ps])))
+
+
+# ------------------------------------------------------------------------------------------------ producer x consumer matrix
+# Every function exported by src/json/iwjson.h is classified here; check() re-reads the header of the tree under test
+# and reports a function that is not classified (a new way to produce or to query a document would otherwise stay
+# outside the matrix).  "P:<ids>" = producer(s) built by the harness, "C:<ids>" = consumer cell(s), "U:<what>" = used by
+# the harness to build / read (not a cell of its own), "X:<reason>" = outside C14.
+HEADER_API = {
+    "jbn_from_json": "P:T.json (T.api root)", "jbn_from_json_printf": "P:T.jsonpf", "jbn_from_json_printf_va": "U:reached through jbn_from_json_printf",
+    "jbn_from_js": "P:T.js (documents whose keys are [A-Za-z0-9]*, the only keys that parser reads)",
+    "jbn_add_item": "P:T.hand T.handx", "jbn_add_item_str": "P:T.api", "jbn_add_item_null": "P:T.api", "jbn_add_item_i64": "P:T.api",
+    "jbn_add_item_f64": "P:T.api", "jbn_add_item_obj": "P:T.api", "jbn_add_item_arr": "P:T.api", "jbn_add_item_bool": "P:T.api",
+    "jbl_to_node": "P:T.back1 T.back0 T.back1h T.back0h T.back0x T.jback0 C:n1 n0",
+    "jbn_clone": "P:T.clone T.cloneh T.clone0 C:cl", "jbn_apply_from": "P:T.apply",
+    "jbl_from_node": "P:B.node B.via0 C:tb", "jbl_fill_from_node": "P:B.fill", "jbl_from_json": "P:B.json T.jback0",
+    "jbl_from_json_printf": "P:B.jsonpf", "jbl_from_json_printf_va": "U:reached through jbl_from_json_printf",
+    "jbl_clone": "P:B.clone C:bcl", "jbl_clone_into_pool": "P:B.clonep C:bclp", "jbl_from_buf_keep": "P:B.buf T.back0x",
+    "jbl_from_buf_keep_onstack": "P:B.stack", "jbl_structure_size": "U:B.stack", "jbl_object_copy_to": "P:B.copyto",
+    "jbl_create_empty_object": "P:B.set B.fill B.copyto", "jbl_create_empty_array": "P:B.set B.fill",
+    "jbl_set_int64": "P:B.set", "jbl_set_f64": "P:B.set", "jbl_set_string": "P:B.set", "jbl_set_string_printf": "P:B.set",
+    "jbl_set_bool": "P:B.set", "jbl_set_null": "P:B.set", "jbl_set_empty_array": "P:B.set", "jbl_set_empty_object": "P:B.set",
+    "jbl_set_nested": "P:B.set B.copyto",
+    "jbl_at": "C:bat", "jbl_at2": "C:bat2 P:B.root", "jbn_at": "C:at", "jbn_at2": "C:at2", "jbn_get": "C:get",
+    "jbn_path_compare": "C:cmp", "jbn_paths_compare": "C:cmp", "jbn_path_compare_str": "C:cmpv", "jbn_path_compare_i64": "C:cmpv",
+    "jbn_path_compare_f64": "C:cmpv", "jbn_path_compare_bool": "C:cmpv", "jbn_copy_path": "C:cp", "jbn_copy_paths": "C:cps",
+    "jbl_object_get_type": "C:bget", "jbl_object_get_fill_jbl": "C:bget", "jbl_object_get_i64": "C:bget", "jbl_object_get_f64": "C:bget",
+    "jbl_object_get_bool": "C:bget", "jbl_object_get_str": "C:bget",
+    "jbn_as_json": "C:js", "jbl_as_json": "C:js", "jbn_as_json_alloc": "C:jsp", "jbl_as_json_alloc": "C:jsp", "jbl_xstr_json_printer": "U:js",
+    "jbn_compare_nodes": "C:eq", "jbn_length": "C:len", "jbl_as_buf": "C:buf", "jbl_type": "C:cnt", "jbl_count": "C:cnt",
+    "jbl_create_iterator_holder": "C:it bget", "jbl_iterator_init": "C:it", "jbl_iterator_next": "C:it",
+    "jbl_get_i64": "U:reading a result of bat/bget/it", "jbl_get_f64": "U:reading a result of bat/bget/it", "jbl_get_str": "U:reading a result",
+    "jbl_size": "U:length of a string result", "jbl_destroy": "U:disposal", "jbl_ptr_alloc": "U:at2/bat2/get, `ptr` queries",
+    "jbn_visit": "U:reached through jbn_at2 / jbn_clone", "jbn_visit2": "U:disposal of trees made without a pool",
+    "jbl_get_i32": "X:narrowing scalar accessor", "jbl_copy_strn": "X:scalar accessor (C17)", "jbl_set_user_data": "X:no document content",
+    "jbl_get_user_data": "X:no document content", "jbl_fstream_json_printer": "X:output sink (C13)", "jbl_count_json_printer": "X:output sink (C13)",
+    "jbn_as_xml": "X:other output format", "jbn_remove_item": "X:mutator (C15)", "jbn_detach": "X:mutator (C15)", "jbn_detach2": "X:mutator (C15)",
+    "jbn_data": "X:mutator", "jbl_ptr_alloc_pool": "X:same parser as jbl_ptr_alloc, other allocator", "jbl_ptr_cmp": "X:pointer utility",
+    "jbl_ptr_serialize": "X:pointer utility", "jbn_patch_auto": "X:patch (C15/C16)", "jbn_patch": "X:patch (C15)", "jbl_patch": "X:patch (C15)",
+    "jbl_patch_from_json": "X:patch (C15)", "jbl_merge_patch": "X:merge patch (C16)", "jbl_merge_patch_jbl": "X:merge patch (C16)",
+    "jbn_merge_patch": "X:merge patch (C16)", "jbn_merge_patch_path": "X:merge patch (C16)", "jbn_merge_patch_from_json": "X:merge patch (C16)",
+    "jbn_merge_patch_create": "X:merge patch (C16)", "jbl_init": "X:module init", "iwjson_ftoa": "X:number printing (C13)",
+}
+# trees whose keys are counted by klidx and not terminated: keys and strings point into a binn buffer, or (T.handx) the tree
+# was built node by node with such keys
+BORROWED = ("T.back0", "T.back0h", "T.back0x", "T.jback0", "T.handx")
+# jbn_get() compares node keys with strcmp(): on the trees above (keys are length-counted, no terminator) it misses every
+# member whose value is not null - a defect of the unmodified library (notes/jbinn.md, fixes/jbinn-get-borrowed-keys.diff).
+# Repaired in /repo by 0d12494 (fixed entry in known_findings.json): the cells are judged like every other one.
+JBN_GET_BORROWED_TOLERATED = False
+KNOWN_HITS = {}
+TREE_PATH_CONS = ("at", "at2", "get", "cmp", "cmpv", "cp", "cps")
+BIN_PATH_CONS = ("bat", "bat2", "bget")
+TREE_VAL_CONS = ("dump", "js", "jsp", "eq", "len", "tb", "cl")
+BIN_VAL_CONS = ("buf", "js", "jsp", "n1", "n0", "cnt", "it", "bcl", "bclp")
+TYPE_RANK = {"n": 1, "b": 2, "i": 3, "d": 4, "s": 5, "o": 6, "a": 7}
+
+
+def header_functions(repo):
+    import re
+    h = open(os.path.join(repo, "src", "json", "iwjson.h")).read()
+    h = re.sub(r"/\*.*?\*/", "", h, flags=re.S)
+    h = re.sub(r"//[^\n]*", "", h)
+    return re.findall(r"IW_EXPORT\s+(?:[\w\*]+\s+)*?\**\s*(\w+)\s*\(", h)
+
+
+def strings_of(v, out=None):
+    out = [] if out is None else out
+    if isinstance(v, bytes):
+        out.append(v)
+    elif isinstance(v, list):
+        for x in v:
+            strings_of(x, out)
+    elif is_obj(v):
+        for _, x in v[1]:
+            strings_of(x, out)
+    return out
+
+
+def keys_of(v, out=None):
+    out = [] if out is None else out
+    if isinstance(v, list):
+        for x in v:
+            keys_of(x, out)
+    elif is_obj(v):
+        for k, x in v[1]:
+            out.append(k)
+            keys_of(x, out)
+    return out
+
+
+def has_double(v):
+    if is_dbl(v):
+        return True
+    if isinstance(v, list):
+        return any(has_double(x) for x in v)
+    if is_obj(v):
+        return any(has_double(x) for _, x in v[1])
+    return False
+
+
+def expected_producers(doc, has_text):
+    """the producers the harness must have built for this document (mirrors build_prods of h_jbinn.c)"""
+    nul = any(0 in s for s in strings_of(doc))
+    alnum = all(all(chr(c).isalnum() and c < 128 for c in k) for k in keys_of(doc))
+    t = ["T.hand", "T.api"]
+    if has_text:
+        t += ["T.json", "T.jsonpf"] + (["T.js"] if alnum else [])
+    t += ["T.back1", "T.back0", "T.back0h"] + ([] if nul else ["T.back1h"]) + ["T.back0x"] + (["T.jback0"] if has_text else [])
+    t += ["T.clone"] + ([] if nul else ["T.cloneh"]) + ["T.clone0", "T.handx", "T.apply"]
+    b = ["B.node", "B.fill"] + (["B.json", "B.jsonpf"] if has_text else []) + ["B.clone", "B.clonep", "B.buf", "B.stack"]
+    b += (["B.copyto"] if is_obj(doc) else []) + ([] if nul else ["B.set"]) + ["B.via0", "B.root"]
+    return t, b
+
+
+def parse_cells(out):
+    """' cons=ans@p1,p2|ans@p3' fields -> {cons: [(ans, [producers])]}"""
+    cells = {}
+    for f in out.split():
+        if "=" not in f:
+            continue
+        k, v = f.split("=", 1)
+        if "@" not in v:
+            continue
+        cl = []
+        for part in v.split("|"):
+            ans, _, ps = part.rpartition("@")
+            cl.append(("" if ans == "~" else ans, ps.split(",")))
+        cells[k] = cl
+    return cells
+
+
+def vkind(v):
+    if v is None:
+        return "n"
+    if isinstance(v, bool):
+        return "b"
+    if isinstance(v, int):
+        return "i"
+    if is_dbl(v):
+        return "d"
+    if isinstance(v, bytes):
+        return "s"
+    return "o" if is_obj(v) else "a"
+
+
+def dbl_of(bits):
+    return struct.unpack(">d", struct.pack(">Q", bits))[0]
+
+
+def sgn(x):
+    return (x > 0) - (x < 0)
+
+
+def cmpv_expected(exp, probe):
+    """what jbn_path_compare_<type>(tree, path, probe) must answer when the path designates `exp`"""
+    if exp is NOTFOUND:
+        return "E:NF"
+    a, b = vkind(exp), vkind(probe)
+    if a != b:
+        return str(sgn(TYPE_RANK[a] - TYPE_RANK[b]))
+    if a == "b":
+        return str(sgn(int(exp) - int(probe)))
+    if a == "i":
+        return str(sgn(exp - probe))
+    if a == "d":
+        x, y = dbl_of(exp[1]), dbl_of(probe[1])
+        return "1" if x > y else "-1" if x < y else "0"
+    if a == "s":
+        if len(exp) != len(probe):
+            return str(sgn(len(exp) - len(probe)))
+        return str(sgn((exp > probe) - (exp < probe)))
+    return "0"
+
+
+def judge_lookup(what, exp, ans):
+    got = got_value(ans)
+    if exp is NOTFOUND:
+        if got is not NOTFOUND:
+            return "%s: RFC 6901 designates nothing, got %s" % (what, ans[:120])
+    elif got is NOTFOUND or (isinstance(got, tuple) and got and got[0] == "err") or not veq(exp, got):
+        return "%s: expected %s, got %s" % (what, dump(exp)[:120], ans[:120])
+    return None
+
+
+def mx_oracle(q, out):
+    """producer x consumer matrix: the same RFC 6901 / value-equality answer is due in every cell"""
+    bad = []
+    doc = parse_dump(q[1])
+    if not in_scope(doc) or not (is_obj(doc) or isinstance(doc, list)):
+        return bad
+    cells = parse_cells(out)
+    if q[0] == "mx":
+        path = b"" if q[2] == "-" else bytes.fromhex(q[2])
+        probe = None if q[3] == "-" else parse_dump(q[3])
+        text = None if q[4] == "-" else bytes.fromhex(q[4])
+    else:
+        path, probe = None, None
+        text = None if q[2] == "-" else bytes.fromhex(q[2])
+    tp, bp = expected_producers(doc, text is not None)
+    src = doc
+
+    def need(cons, prods):
+        have = set(p for _, ps in cells.get(cons, []) for p in ps)
+        miss = [p for p in prods if p not in have]
+        if miss:
+            bad.append("matrix cell missing: consumer %s was not run on producer(s) %s" % (cons, ",".join(miss)))
+
+    def each(cons):
+        for ans, ps in cells.get(cons, []):
+            yield ans, ps, "%s on %s" % (cons, ",".join(ps))
+
+    if q[0] == "mxc":
+        for c in TREE_VAL_CONS:
+            need(c, tp)
+        for c in BIN_VAL_CONS:
+            need(c, bp)
+        for c in ("dump", "cl", "n1", "n0", "it"):
+            for ans, ps, what in each(c):
+                if ans.startswith("ERR") or not veq(src, parse_dump(ans)):
+                    bad.append("%s: not the value of the document: %s" % (what, ans[:160]))
+        for c in ("tb", "buf", "bcl", "bclp"):
+            for ans, ps, what in each(c):
+                try:
+                    if ans.startswith("ERR") or not veq(src, binn_value(ans)):
+                        bad.append("%s: the bytes do not hold the value of the document: %s" % (what, ans[:160]))
+                except (BadBinn, ValueError, IndexError) as e:
+                    bad.append("%s: not a well formed binn buffer (%s)" % (what, e))
+        for c in ("js", "jsp"):
+            cl = cells.get(c, [])
+            if len(cl) > 1:
+                bad.append("%s: the same value prints differently depending on how it was produced: %s on %s vs %s on %s" % (
+                    c, cl[0][0][:80], ",".join(cl[0][1]), cl[1][0][:80], ",".join(cl[1][1])))
+            if textable(doc) and not has_double(doc):
+                for ans, ps, what in each(c):
+                    try:
+                        if not ans.startswith("0:") or not veq(src, parse_json_text(bytes.fromhex(ans[2:]).decode("utf-8"))):
+                            bad.append("%s: the printed text is not the document: %s" % (what, ans[:160]))
+                    except (ValueError, UnicodeDecodeError) as e:
+                        bad.append("%s: the printed text is not JSON (%s): %s" % (what, e, ans[:160]))
+        for ans, ps, what in each("eq"):
+            if ans != "0,0":
+                bad.append("%s: jbn_compare_nodes with the tree built node by node says %s" % (what, ans))
+        n = len(doc[1]) if is_obj(doc) else len(doc)
+        for ans, ps, what in each("len"):
+            if ans != str(n):
+                bad.append("%s: expected %d, got %s" % (what, n, ans))
+        for ans, ps, what in each("cnt"):
+            if ans != "%d:%d" % (6 if is_obj(doc) else 7, n):
+                bad.append("%s: expected type:count %d:%d, got %s" % (what, 6 if is_obj(doc) else 7, n, ans))
+        return bad
+    # ---- mx
+    toks = rfc_parse(path)
+    f = fields(out)
+    bad += ptr_oracle(path, f)
+    if toks is None or 0 in path:
+        return bad
+    if toks and (toks[-1] == b"" or b"*" in toks):
+        return bad
+    if len(toks) > 999 or depth(doc) > 999:
+        return bad
+    exp = rfc_eval(doc, toks)
+    need("at", tp), need("at2", tp), need("get", tp), need("cmp", tp), need("cp", tp)
+    need("bat", bp), need("bat2", bp)
+    if len(toks) == 1:
+        need("cps", tp)
+        if is_obj(doc):
+            need("bget", bp)
+    if probe is not None and vkind(probe) in "bids" and not (isinstance(probe, bytes) and 0 in probe):
+        need("cmpv", tp)
+    for c in ("at", "at2", "get", "bat", "bat2"):
+        for ans, ps, what in each(c):
+            if "!ALIAS" in ans:
+                bad.append("%s: the result owns the buffer of the document: jbl_destroy(result), as documented, frees it" % what)
+                ans = ans.replace("!ALIAS", "")
+            why = judge_lookup(what, exp, ans)
+            if why and c == "get" and JBN_GET_BORROWED_TOLERATED and all(p in BORROWED for p in ps):
+                KNOWN_HITS["jbn_get-borrowed-keys"] = KNOWN_HITS.get("jbn_get-borrowed-keys", 0) + 1
+                continue
+            if why:
+                bad.append(why)
+    for ans, ps, what in each("cmp"):
+        if ans != "0,0":
+            bad.append("%s: jbn_path_compare / jbn_paths_compare of this tree with the tree built node by node (same value, same "
+                       "pointer) says %s" % (what, ans))
+    if probe is not None:
+        want = cmpv_expected(exp, probe)
+        for ans, ps, what in each("cmpv"):
+            if ans != "NA" and ans != want:
+                bad.append("%s: jbn_path_compare_<type> with %s: expected %s, got %s" % (what, dump(probe)[:80], want, ans))
+    for c, key in (("cp", b"r"), ("cps", toks[0] if len(toks) == 1 else None)):
+        want = ("o", []) if exp is NOTFOUND else ("o", [(key, exp)])
+        for ans, ps, what in each(c):
+            if not ans.startswith("0:") or not veq(want, parse_dump(ans[2:])):
+                bad.append("%s: copying the designated value into {} must give %s, got %s" % (what, dump(want)[:120], ans[:120]))
+    if len(toks) == 1 and is_obj(doc):
+        # keys of the binary form are matched ignoring ASCII case (binn objects; the documents judged have no two such keys)
+        hit = [x for k, x in doc[1] if lower(k) == lower(toks[0])]
+        if not hit:
+            want = "0:NF:+"
+        else:
+            x = hit[0]
+            k = vkind(x)
+            want = "%d:0:%s+" % (TYPE_RANK[k], dump(x))
+            if k in "bid" or (k == "s" and not any(0 in s for s in strings_of(doc))):
+                want += "0:" + dump(x)
+        for ans, ps, what in each("bget"):
+            if ans != want and not (hit and veq_bget(ans, want)):
+                bad.append("%s: jbl_object_get_type/_fill_jbl/_<type>: expected %s, got %s" % (what, want[:160], ans[:160]))
+    return bad
+
+
+def veq_bget(got, want):
+    """'rank:0:<dump>+[0:<dump>]' compared by value (containers may be dumped with members in another order)"""
+    try:
+        g1, _, g2 = got.partition("+")
+        w1, _, w2 = want.partition("+")
+        gr, grc, gd = g1.split(":", 2)
+        wr, wrc, wd = w1.split(":", 2)
+        return gr == wr and grc == wrc and veq(parse_dump(gd), parse_dump(wd)) and g2 == w2
+    except (BadDump, ValueError):
+        return False
 
 
 # ------------------------------------------------------------------------------------------------ oracle
@@ -674,11 +998,13 @@ def oracle(query, out):
                         bad.append("%s: RFC 6901 designates nothing, got %s" % (what, f[name][:120]))
                 elif got is NOTFOUND or (isinstance(got, tuple) and got and got[0] == "err") or not veq(exp, got):
                     bad.append("%s: expected %s, got %s" % (what, dump(exp)[:120], f[name][:120]))
+        elif q[0] in ("mx", "mxc"):
+            bad += mx_oracle(q, out)
         elif q[0] == "dec":
             exp = binn_value(q[1])
             if in_scope(exp) and f.get("rc") == "0" and not veq(exp, parse_dump(f["back"])):
                 bad.append("binary -> tree: expected %s got %s" % (dump(exp)[:120], f["back"][:120]))
-    except (BadDump, KeyError) as e:
+    except (BadDump, KeyError, IndexError) as e:
         bad.append("unreadable answer of the implementation (%r): %s" % (e, out[:200]))
     return bad
 
@@ -729,6 +1055,9 @@ def build_queries(run, mult):
         if kind == "plain" and (is_obj(doc) or isinstance(doc, list)) and rng.chance(1, 4):
             lines.append("dec " + binn_write(doc, rng).hex())
             run.dist("dec")
+        if kind in ("plain", "nul") and (is_obj(doc) or isinstance(doc, list)) and in_scope(doc) and len(d) < 6000 and (
+                quick or rng.chance(1, 3)):
+            lines += matrix_queries(run, rng, doc, d)
     for p in (b"", b"/", b"//", b"/a", b"/a/b", b"/a//b", b"/~0", b"/~1", b"/~01", b"/~10", b"/a~0b~1c/~1", b"a", b"a/b", b"/a/", b"//a/",
               b"/ ", b"/\xff\xfe", b"/" + b"x" * 300, b"/0/1/2/3/4/5/6/7/8/9", b"/~0~0~1~1", b"/*", b"/a/*/b"):
         lines.append("ptr " + vlib.hexs(p))
@@ -741,6 +1070,78 @@ def build_queries(run, mult):
             lines.append("ptr " + vlib.hexs(p))
             run.dist("ptr")
     return lines
+
+
+PROBES = [0, 1, -1, 127, 128, 1 << 32, -(1 << 63), (1 << 63) - 1, True, False, b"", b"a", b"b", b"x", b"leaf", ("d", 0x3ff8000000000000),
+          ("d", 0), ("d", 0x7ff8000000000001), ("d", 0xc00921fb54442d18)]
+
+
+def make_probe(rng, exp):
+    """the constant a jbn_path_compare_<type> cell compares with: the designated scalar itself, a neighbour, or anything"""
+    if exp is not NOTFOUND and vkind(exp) in "bids" and not (isinstance(exp, bytes) and 0 in exp) and rng.chance(2, 3):
+        if rng.chance(1, 2):
+            return exp
+        if isinstance(exp, bool):
+            return not exp
+        if isinstance(exp, int):
+            return max(-(1 << 63), min((1 << 63) - 1, exp + rng.choice([-1, 1])))
+        if isinstance(exp, bytes):
+            return rng.choice([exp + b"a", exp[:-1], bytes(c ^ 1 if c > 1 else c for c in exp) or b"a"])
+        return ("d", exp[1] ^ rng.choice([1, 1 << 63]))
+    return rng.choice(PROBES)
+
+
+def matrix_queries(run, rng, doc, d):
+    """mxc + mx lines of one document: every member path (sampled), mutated paths, the root"""
+    out = []
+    text = "-"
+    if textable(doc) and not has_double(doc):
+        text = vlib.hexs(to_json_text(rng, doc).encode("utf-8"))
+    out.append("mxc %s %s" % (d, text))
+    run.dist("mxc")
+    paths = all_paths(doc)
+    some = [b""] + ([rng.choice(paths) for _ in range(7)] if len(paths) > 8 else paths[1:])
+    extra = [p for p in mutate_paths(rng, doc, some) if well_escaped(p)]
+    if len(extra) > 4:
+        extra = [rng.choice(extra) for _ in range(4)]
+    for kind, ps in (("mx-existing", some), ("mx-mutated", extra)):
+        for p in ps:
+            if 0 in p:
+                continue
+            toks = rfc_parse(p)
+            exp = rfc_eval(doc, toks) if toks is not None else NOTFOUND
+            pr = make_probe(rng, exp)
+            if isinstance(pr, bytes) and 0 in pr:
+                pr = b"a"
+            out.append("mx %s %s %s %s" % (d, vlib.hexs(p), dump(pr), text))
+            run.dist(kind)
+    return out
+
+
+def compare_matrix(q, out_i, out_m):
+    """T2 for mx / mxc lines: the model's answer must be matched by EVERY producer (one class per consumer)"""
+    m, cells, fi = fields(out_m), parse_cells(out_i), fields(out_i)
+    bad = []
+
+    def all_are(cons, want, name):
+        if want is None:
+            return
+        for ans, ps in cells.get(cons, []):
+            if ans.replace("!ALIAS", "") != want:
+                bad.append("%s[%s]" % (name, ",".join(ps)))
+
+    if q[0] == "mx":
+        if m.get("p") != fi.get("p"):
+            bad.append("p")
+        all_are("at", m.get("t"), "t"), all_are("at2", m.get("t2"), "t2")
+        all_are("bat", m.get("b"), "b"), all_are("bat2", m.get("b2"), "b2")
+    else:
+        for c in ("buf", "tb", "bcl", "bclp"):
+            all_are(c, m.get("binn"), "binn")
+        for c in ("dump", "n1", "n0", "it"):
+            all_are(c, m.get("back"), "back")
+        all_are("cl", m.get("ncl"), "ncl")
+    return bad
 
 
 def compare(out_i, out_m):
@@ -762,6 +1163,21 @@ def compare(out_i, out_m):
 
 def check(run):
     proofs_ok = run.proofs()
+    # T1 for the matrix: every function the public header exports is classified (producer / consumer / used / outside)
+    try:
+        exported = header_functions(vlib.REPO)
+        new = [f for f in exported if f not in HEADER_API]
+        gone = [f for f in HEADER_API if f not in exported]
+        if new or gone:
+            run.broken.append("T1 header: src/json/iwjson.h exports %s / no longer exports %s - the producer x consumer matrix "
+                              "(HEADER_API in checks/C14.py, harness/h_jbinn.c) does not classify it" % (new or "-", gone or "-"))
+        run.cov["matrix_api"] = {"exported": len(exported),
+                                 "producers": sorted(f for f, c in HEADER_API.items() if "P:" in c),
+                                 "consumers": sorted(f for f, c in HEADER_API.items() if "C:" in c),
+                                 "used": sorted(f for f, c in HEADER_API.items() if c.startswith("U:")),
+                                 "outside": {f: c[2:] for f, c in HEADER_API.items() if c.startswith("X:")}}
+    except OSError as e:
+        run.broken.append("T1 header: cannot read iwjson.h (%s)" % e)
     impl = vlib.build_harness("h_jbinn")
     model = vlib.build_model("jbinn")
     mult = 1 if proofs_ok else 10
@@ -786,7 +1202,14 @@ def check(run):
         if l.startswith("json "):
             om = None
         if om is not None:
-            d = compare(oi, om)
+            if l.startswith("mx"):
+                d = compare_matrix(l.split(), oi, om)
+                for cons, cl in parse_cells(oi).items():
+                    for _, ps in cl:
+                        for pr in ps:
+                            run.dist("cell %s x %s" % (cons, pr))
+            else:
+                d = compare(oi, om)
             if d:
                 mism.append((i, d))
         run.case(l, nontrivial=True, sample=({"query": l[:400], "impl": oi[:400]} if i % max(1, len(lines) // 5) == 0 else None))
@@ -795,9 +1218,24 @@ def check(run):
                 run.violation({"query": l, "impl": oi, "kind": l.split()[0]}, why + " | query: " + l[:300])
                 break
     run.cov["traces_validated_against_impl"] = len(lines) - len(mism)
+    if any(l.startswith("mx") for l in lines):
+        dd = run.cov["distribution"]
+        tp, bp = expected_producers(("o", [(b"a", 1)]), True)
+        empty = ["%s x %s" % (c, pr) for c in TREE_PATH_CONS + TREE_VAL_CONS for pr in tp if not dd.get("cell %s x %s" % (c, pr))]
+        empty += ["%s x %s" % (c, pr) for c in BIN_PATH_CONS + BIN_VAL_CONS for pr in bp if not dd.get("cell %s x %s" % (c, pr))]
+        run.cov["matrix_cells_never_run"] = empty
+        if empty:
+            run.notes.append("matrix cells not exercised in this run: " + ", ".join(empty[:20]))
+    for k, n in KNOWN_HITS.items():
+        run.dist("known-defect " + k, n)
+        run.notes.append("known defect of the unmodified library, measured in %d cells and not judged: %s (notes/jbinn.md, "
+                         "fixes/jbinn-get-borrowed-keys.diff)" % (n, k))
     if mism:
         i, d = mism[0]
         fi, fm = fields(out_i[i] if i < len(out_i) else ""), fields(out_m[i] if i < len(out_m) else "")
+        if lines[i].startswith("mx"):
+            fi = {d[0]: "producer(s) %s answer differently" % d[0]}
+            fm = {d[0]: fm.get(d[0].split("[")[0])}
         run.broken.append("T2 correspondence: %d of %d queries differ, first: `%s` field %s impl=`%s` model=`%s`" % (
             len(mism), len(lines), lines[i][:300], d[0], (fi.get(d[0]) or "")[:200], (fm.get(d[0]) or "")[:200]))
         if os.environ.get("VERIF_DEBUG"):
@@ -808,10 +1246,24 @@ def check(run):
         rule="random documents (keys at 0/1/127/128/254/255/256 bytes, case-colliding and escaped keys, integers at +-2^7, 2^8, "
              "+-2^15, 2^16, +-2^31, 2^32, +-2^63 and neighbours, strings at 126..129 bytes, containers of 126..129 items, total sizes "
              "around 127, nested empties, depth up to 20) x every pointer of the document plus mutated ones (~0, ~1, numeric keys, "
-             "leading zeros, index = length, '-', case changes, dropped/inserted segments); a case is one query line",
+             "leading zeros, index = length, '-', case changes, dropped/inserted segments); a case is one query line.  "
+             "Producer x consumer matrix (mx / mxc lines, distribution keys `cell <consumer> x <producer>`): for every document with "
+             "admissible keys, 16 ways to obtain the tree (parsed from text by jbn_from_json / _printf / jbn_from_js, built node by "
+             "node with terminated and with klidx-counted keys, built through jbn_add_item_*, jbl_to_node with clone_strings true / false with and without a pool and from a "
+             "foreign buffer of exact size or from a jbl_from_json document, jbn_clone with / without pool and of a borrowing "
+             "tree, jbn_apply_from) and 12 ways to obtain the binary (jbl_from_node, jbl_fill_from_node, jbl_from_json / _printf, "
+             "jbl_clone, jbl_clone_into_pool, jbl_from_buf_keep / _onstack, jbl_set_* member by member, jbl_object_copy_to, "
+             "jbl_from_node of a borrowing tree, jbl_at2 of the root) x jbn_at, jbn_at2, jbn_get walk, jbn_path(s)_compare, "
+             "jbn_path_compare_<type>, jbn_copy_path(s), jbl_at, jbl_at2, jbl_object_get_* and dump, print (plain / pretty), "
+             "jbn_compare_nodes, jbn_length, tree -> binary, jbn_clone, jbl_as_buf, jbl_to_node, jbl_count/type, iterator, jbl_clone*: "
+             "one RFC 6901 / value-equality answer is due in every cell; the set of exported functions of iwjson.h is re-read and "
+             "must be classified completely (HEADER_API)",
         assumptions=["tree nodes of arrays carry klidx = position (true of parsed, decoded and freshly built trees; C15 covers the rest)",
                      "documents and pointers have at most 999 levels (JBL_MAX_NESTING_LEVEL)",
                      "binn maps, blobs and buffers of 2^31 bytes or more are outside the model",
+                     "the model's tree is a value (no storage): that keys of a tree borrowed from a binn buffer are counted by "
+                     "klidx and not terminated is exercised by the T.back0* / T.jback0 producers of the matrix, not by a theorem",
+                     "jbl_object_get_* match keys ignoring ASCII case (binn objects): judged with that rule",
                      "JSON text is only produced with escapes and number spellings every parser accepts; double parsing/printing "
                      "accuracy belongs to C13 and is not judged here"])
 
